@@ -13,6 +13,8 @@ mod stream;
 mod stream_loop;
 mod stream_sink;
 mod transaction;
+#[cfg(feature = "verif_hooks")]
+pub mod verif;
 
 pub use self::cell::Cell;
 pub use self::cell_loop::CellLoop;
